@@ -13,10 +13,11 @@ import (
 	"github.com/tdakkota/docker-logql/verifharness/model"
 )
 
-// C13Operand is vector(v) or a parenthesised sub-chain.
+// C13Operand is vector(v), the bare scalar literal v (Lit) or a parenthesised sub-chain.
 type C13Operand struct {
 	Text string    `json:"text,omitempty"`
 	V    float64   `json:"v,omitempty"`
+	Lit  bool      `json:"lit,omitempty"`
 	Sub  *C13Chain `json:"sub,omitempty"`
 }
 
@@ -40,6 +41,8 @@ func (c C13Chain) String() string {
 		}
 		if o.Sub != nil {
 			sb.WriteString("(" + o.Sub.String() + ")")
+		} else if o.Lit {
+			sb.WriteString(o.Text)
 		} else {
 			sb.WriteString("vector(" + o.Text + ")")
 		}
@@ -108,8 +111,29 @@ func c13Prec(op string) int {
 
 type c13Tree struct {
 	leaf optVal
+	lit  bool // the leaf is a scalar literal
 	op   string
 	l, r *c13Tree
+}
+
+// scalarOK tells whether the tree is an expression the engine supports: no operator between
+// two scalars and no set operator over a scalar. isScalar reports the kind of its value.
+func (t *c13Tree) scalarOK() (isScalar, ok bool) {
+	switch t.op {
+	case "":
+		return t.lit, true
+	case "()":
+		return t.l.scalarOK()
+	}
+	ls, lok := t.l.scalarOK()
+	rs, rok := t.r.scalarOK()
+	if !lok || !rok || (ls && rs) {
+		return false, false
+	}
+	if (ls || rs) && (t.op == "and" || t.op == "or" || t.op == "unless") {
+		return false, false
+	}
+	return false, true
 }
 
 func (t *c13Tree) shape() string {
@@ -137,7 +161,7 @@ func c13Parse(c C13Chain, rightAssocAll bool) *c13Tree {
 			// Parentheses: the value of the sub-tree, kept as a leaf-like unit.
 			return &c13Tree{op: "()", l: sub, r: &c13Tree{}}
 		}
-		return &c13Tree{leaf: optVal{ok: true, v: o.V}}
+		return &c13Tree{leaf: optVal{ok: true, v: o.V}, lit: o.Lit}
 	}
 	var climb func(minPrec int) *c13Tree
 	climb = func(minPrec int) *c13Tree {
@@ -189,8 +213,7 @@ func (t *c13Tree) shapeP() string {
 func (t *c13Tree) fullyParenthesised(c *C13Chain, idx *int) string {
 	switch t.op {
 	case "":
-		s := "vector(" + leafText(c, idx) + ")"
-		return s
+		return leafText(c, idx)
 	case "()":
 		return "(" + t.l.fullyParenthesised(c, idx) + ")"
 	}
@@ -203,8 +226,10 @@ func flattenLeaves(c *C13Chain, out *[]string) {
 	for _, o := range c.Operands {
 		if o.Sub != nil {
 			flattenLeaves(o.Sub, out)
-		} else {
+		} else if o.Lit {
 			*out = append(*out, o.Text)
+		} else {
+			*out = append(*out, "vector("+o.Text+")")
 		}
 	}
 }
@@ -273,6 +298,7 @@ func c13Check(c C13Case) (r evid.Result) {
 	pow := false
 	nOps := countOps(c.Chain, levels, &pow)
 	hasParens := strings.Contains(c.Text, "(vector") || strings.Contains(c.Text, "((")
+	r.Class(c13HasLit(c.Chain), "scalar-literal-operand")
 	r.Class(inDomain, "equal-precedence-left-assoc-matters")
 	r.Class(pow, "has-pow")
 	r.Class(hasParens, "parentheses")
@@ -379,9 +405,79 @@ func c13GenChain(t *rapid.T, depth int, maxOperands int, avoidDomain bool) C13Ch
 	return c
 }
 
+func c13HasLit(c C13Chain) bool {
+	for _, o := range c.Operands {
+		if o.Lit || (o.Sub != nil && c13HasLit(*o.Sub)) {
+			return true
+		}
+	}
+	return false
+}
+
+func c13SetLit(t *rapid.T, c *C13Chain) {
+	for i := range c.Operands {
+		if c.Operands[i].Sub != nil {
+			c13SetLit(t, c.Operands[i].Sub)
+		} else if rapid.IntRange(0, 2).Draw(t, "literal-operand") == 0 {
+			c.Operands[i].Lit = true
+		}
+	}
+}
+
+func c13ClearLit(c *C13Chain) {
+	for i := range c.Operands {
+		c.Operands[i].Lit = false
+		if c.Operands[i].Sub != nil {
+			c13ClearLit(c.Operands[i].Sub)
+		}
+	}
+}
+
+var c13Values = []struct {
+	text string
+	v    float64
+}{{"2", 2}, {"3", 3}, {"5", 5}, {"7", 7}, {"0.5", 0.5}, {"1", 1}, {"11", 11}}
+
 func c13Gen(t *rapid.T) C13Case {
 	avoid := rapid.IntRange(0, 3).Draw(t, "avoid-known-domain") != 0
 	chain := c13GenChain(t, 2, 5, avoid)
+	switch rapid.IntRange(0, 7).Draw(t, "literals") {
+	case 0, 1:
+		// Some operands are bare scalar literals, as long as the expression stays one the engine
+		// supports under the conventional and under the right-associative reading.
+		c13SetLit(t, &chain)
+		_, ok1 := c13Parse(chain, false).scalarOK()
+		_, ok2 := c13Parse(chain, true).scalarOK()
+		if !ok1 || !ok2 {
+			c13ClearLit(&chain)
+		}
+	case 2:
+		// ((x op a) op b) op c ...: explicit parentheses around a vector and a run of literals.
+		val := func(label string) C13Operand {
+			v := rapid.SampledFrom(c13Values).Draw(t, label)
+			return C13Operand{Text: v.text, V: v.v}
+		}
+		arith := []string{"+", "-", "*", "/", "%", "^", "-", "/"}
+		op := rapid.SampledFrom(arith).Draw(t, "lc-op")
+		cur := C13Chain{Operands: []C13Operand{val("lc-x"), val("lc-a")}, Ops: []string{op}}
+		cur.Operands[1].Lit = true
+		if rapid.Bool().Draw(t, "lc-literal-left") {
+			cur.Operands[0], cur.Operands[1] = cur.Operands[1], cur.Operands[0]
+		}
+		for i, n := 0, rapid.IntRange(1, 3).Draw(t, "lc-levels"); i < n; i++ {
+			if !rapid.Bool().Draw(t, "lc-same-op") {
+				op = rapid.SampledFrom(append(arith, "<", ">=", "==")).Draw(t, "lc-op2")
+			}
+			lit := val("lc-b")
+			lit.Lit = true
+			inner := cur
+			cur = C13Chain{Operands: []C13Operand{{Sub: &inner}, lit}, Ops: []string{op}}
+			if rapid.IntRange(0, 3).Draw(t, "lc-literal-left2") == 0 {
+				cur.Operands[0], cur.Operands[1] = cur.Operands[1], cur.Operands[0]
+			}
+		}
+		chain = cur
+	}
 	return C13Case{Chain: chain, Text: chain.String()}
 }
 
